@@ -66,6 +66,7 @@ type Req struct {
 	Kind    string `json:"kind"`               // attestation attestations proposal randao slotsel syncsel aggregate syncroots contributions registration
 	// transient failures of the (remote) signer while THIS request is handled, by account key:
 	BatchFail  []uint64 `json:"batch_fail,omitempty"`  // multi-signature calls answer with a nil entry for this member (it can sign alone)
+	BatchOnce  []uint64 `json:"batch_fail_once,omitempty"` // ... a nil entry in the FIRST multi-signature call of this request that includes the member, a signature in later ones
 	BatchZero  []uint64 `json:"batch_zero,omitempty"`  // ... with an all-zero signature object for this member
 	BatchErr   []uint64 `json:"batch_err,omitempty"`   // a multi-signature call made ON this account fails as a whole
 	SingleFail []uint64 `json:"single_fail,omitempty"` // the single-signature methods of this account fail (batch calls sign for it)
@@ -109,6 +110,11 @@ type Input struct {
 	Concurrent bool  `json:"concurrent,omitempty"`
 
 	Tags []string `json:"tags,omitempty"`
+}
+
+// missKeys: the members that the (first) multi-signature call including them has no signature for.
+func (q Req) missKeys() []uint64 {
+	return append(append(append([]uint64{}, q.BatchFail...), q.BatchOnce...), q.BatchZero...)
 }
 
 // steps are the requests of the session in order.
@@ -295,7 +301,7 @@ func runInput(t *testing.T, in Input, level zerolog.Level) []Observed {
 
 // runStep makes one request (in is a single-request view of the session) to the session's service.
 func runStep(t *testing.T, svc *standardsigner.Service, dp *domainProvider, rec *recorder, pool []e2wtypes.Account, bases []*base, in Input) Observed {
-	env := &stepEnv{fail: in.DomFail, batchFail: keySet(in.BatchFail), batchZero: keySet(in.BatchZero), batchErr: keySet(in.BatchErr), singleFail: keySet(in.SingleFail)}
+	env := &stepEnv{fail: in.DomFail, batchFail: keySet(in.BatchFail), batchZero: keySet(in.BatchZero), batchOnce: keySet(in.BatchOnce), batchErr: keySet(in.BatchErr), singleFail: keySet(in.SingleFail)}
 	ctx := withStepEnv(context.Background(), env)
 	accounts := make([]e2wtypes.Account, len(in.Batch))
 	for i, p := range in.Batch {
@@ -507,7 +513,7 @@ func term(id uint64, in Input, obs Observed) string {
 		roots[i] = hexN(r)
 	}
 	return Record("c_id", N(id), "c_chain", chain, "c_svc", svc, "c_dom_fail", Bool(in.DomFail),
-		"c_batch_fail", nList(append(append([]uint64{}, in.BatchFail...), in.BatchZero...)), "c_batch_err", nList(in.BatchErr), "c_single_fail", nList(in.SingleFail),
+		"c_batch_fail", nList(in.missKeys()), "c_batch_err", nList(in.BatchErr), "c_single_fail", nList(in.SingleFail),
 		"c_req", in.reqTerm(),
 		"c_out", out, "c_verified", List(ver), "c_roots", List(roots))
 }
